@@ -185,7 +185,7 @@ def judge_out(name, fb, bits, outs):
         if d is None or d > 1:
             under = "xy-error-underflows" if (xy != 0 and not flt.is_representable(xy - fr(flt.RN(xy, f), f), f)) else ("near-overflow" if abs(xy) > L / 4 or abs(z) > L / 4 else "regular")
             nonfinite = d is None or not flt.is_finite_bits(outs[0], f)
-            cls = ("fma/near-overflow/nonfinite-result" if nonfinite else "fma/near-overflow") if under == "near-overflow" else ("fma/%s/%s" % (alg, under) if under == "xy-error-underflows" else "fma/%s/%s/%s" % (mod, alg, under))
+            cls = ("fma/near-overflow/nonfinite-result" if nonfinite else "fma/near-overflow") if under == "near-overflow" else (("fma/xy-error-underflows/2-steps" if d == 2 else "fma/%s/%s" % (alg, under)) if under == "xy-error-underflows" else "fma/%s/%s/%s" % (mod, alg, under))
             return "in", [(cls, "%s%r = %r is %s lattice steps from RN(x*y+z) = %r" % (name, tuple(scal), show(outs[0]), d, show(want)))], True
         return "in", [], not flt.is_representable(exact, f)
     if name in ("next/up", "next/down"):
